@@ -79,6 +79,11 @@ Theorem C12_box_pad : forall (b b' : box R) (v : vec R),
 Proof. exact box_pad. Qed.
 Print Assumptions C12_box_pad.
 
+Theorem C12_box_unit_cube : forall (n : nat) (c : bool) (b : box R),
+  aabb_unit_cube R RO n c = Ret b -> bdim b = n /\ nonempty b /\ aabb_span R RO b = repeat 1 n.
+Proof. exact box_unit_cube. Qed.
+Print Assumptions C12_box_unit_cube.
+
 (* ---------------------------------------------------------------- cross / determinants *)
 Theorem C12_cross_expansion : forall a0 a1 a2 b0 b1 b2 : R,
   g_cross R RO [a0; a1; a2] [b0; b1; b2] = [a1 * b2 - a2 * b1; a2 * b0 - a0 * b2; a0 * b1 - a1 * b0].
@@ -93,6 +98,14 @@ Theorem C12_det_expansions : forall a0 a1 a2 b0 b1 b2 c0 c1 c2 : R,
   = g_dot R RO [a0; a1; a2] (g_cross R RO [b0; b1; b2] [c0; c1; c2]).
 Proof. exact det_expansions. Qed.
 Print Assumptions C12_det_expansions.
+
+(* each column of det_2x2 may independently be a complex number or an array: all four combinations give
+   x1*y2 - y1*x2 (rep2 true = complex, rep2 false = array), as does the array-only instance used by the callers *)
+Theorem C12_det_2x2_representation_independent : forall (ca cb : bool) (x1 y1 x2 y2 : R),
+  g_det_2x2_any R RO (rep2 ca x1 y1) (rep2 cb x2 y2) = Ret (x1 * y2 - y1 * x2) /\
+  g_det_2x2 R RO [x1; y1] [x2; y2] = x1 * y2 - y1 * x2.
+Proof. exact det2_representation_independent. Qed.
+Print Assumptions C12_det_2x2_representation_independent.
 
 Theorem C12_lagrange : forall a0 a1 a2 b0 b1 b2 : R,
   let a := [a0; a1; a2] in let b := [b0; b1; b2] in
@@ -200,6 +213,12 @@ Theorem C12_roots_power : forall (t : R) (n k : nat), (0 < n)%nat ->
   cpow (cos th, sin th) n = (cos t, sin t).
 Proof. exact roots_power. Qed.
 Print Assumptions C12_roots_power.
+
+(* every root returned by solve_quadratic is a root (outside the code's own |delta| < 1e-14 tolerance) *)
+Theorem C12_solve_quadratic_roots : forall A B C x : R,
+  In x (m_solve_quadratic R RO A B C) -> A = 0 \/ eps14 <= Rabs (B * B - 4 * A * C) -> A * x * x + B * x + C = 0.
+Proof. exact solve_quadratic_roots. Qed.
+Print Assumptions C12_solve_quadratic_roots.
 
 (* ---------------------------------------------------------------- no side effects *)
 (* the event table regenerated from the five source files passes the purity check ... *)
